@@ -16,6 +16,8 @@
      adv     let virtual time pass the validator timeout: every running validator that has a
              timeout returns the verdict the scenario fixed   (the same, as AsyncTimeout)
      pub     Topic.Publish of an id (content-based id)       (LocalStart)
+     badd / bpub   Topic.AddToBatch of an id / PubSub.PublishBatch of the batch
+     down    a forwarder's connection closes (its score record is retained)
      block / unblock
              park a validation worker with an unrelated message whose signature is invalid
              (held inside the tracer callback, before the seen cache is touched): this is how
@@ -45,7 +47,7 @@ GInit == Init /\ hist = <<>> /\ firing = {} /\ nblk = 0 /\ nadv = 0 /\ racy = FA
 
 \* ---------------------------------------------------------------- eager part
 EagerEnabled ==
-    \/ sendQ # <<>> \/ loopQ # <<>>
+    \/ sendQ # <<>> \/ loopQ # <<>> \/ pendB # <<>>
     \/ \E w \in Workers : worker[w].st \in {"sig", "mark", "fin"} \/ (worker[w].st = "idle" /\ valQ # <<>>)
     \/ \E j \in jobs : j.stage = "new" \/ (j.stage = "run" /\ j.run = {})
     \/ \E c \in Calls : local[c].st \in {"mark", "fin"}
@@ -57,7 +59,7 @@ Fire(x, vd) == /\ hist' = [hist EXCEPT ![Len(hist)].tv = Append(@, [v |-> x.v, m
                /\ firing' = firing \ {x} /\ UNCHANGED <<nblk, nadv, racy>>
 
 Eager ==
-    \/ (LoopPush \/ LoopPublish) /\ NoRec /\ Keep
+    \/ (LoopPush \/ LoopPublish \/ LoopBatch) /\ NoRec /\ Keep
     \/ \E w \in Workers : (WorkerTake(w) \/ WorkerSig(w) \/ WorkerMarkSeen(w) \/ WorkerFinish(w)) /\ NoRec /\ Keep
     \/ \E j \in jobs : AsyncCombine(j) /\ NoRec /\ Keep
     \/ \E j \in jobs : /\ AsyncStart(j) /\ NoRec /\ UNCHANGED <<firing, nblk, nadv>>
@@ -101,7 +103,11 @@ Rel ==
     \/ \E o \in orphans :      \* an orphan that ignored the cancellation; its verdict is read by nobody
          /\ OrphanDone(o) /\ Rec([a |-> "rel", v |-> o.v, m |-> o.id, r |-> "A"]) /\ Keep
 
-Pub(c, id) == LocalStart(c, id) /\ Rec([a |-> "pub", m |-> id]) /\ Keep
+Pub(c, id) == "pub" \in Modes /\ LocalStart(c, id, "pub") /\ Rec([a |-> "pub", m |-> id]) /\ Keep
+\* Topic.AddToBatch of an id, PubSub.PublishBatch of what the batch holds, a forwarder's connection goes down
+BAdd(c, id) == "batch" \in Modes /\ LocalStart(c, id, "batch") /\ Rec([a |-> "badd", m |-> id]) /\ Keep
+BPub == BatchPublish /\ Rec([a |-> "bpub"]) /\ Keep
+Down(p) == Disconnect(p) /\ Rec([a |-> "down", p |-> p]) /\ Keep
 
 BName(n) == "b" \o ToString(n)
 
@@ -109,13 +115,13 @@ Block(w) ==
     /\ nblk < MaxBlock /\ worker[w].st = "idle" /\ valQ = <<>> /\ cfg.signed   \* the blocker carries an invalid signature
     /\ worker' = [worker EXCEPT ![w] = [st |-> "parked", id |-> BName(nblk + 1), src |-> "-", k |-> 0, res |-> "A", tv |-> 0]]
     /\ nblk' = nblk + 1 /\ Rec([a |-> "block", m |-> BName(nblk + 1)])
-    /\ UNCHANGED <<cfg, seen, sent, valQ, loopQ, jobs, gUsed, vUsed, orphans, sendQ, local, outs, mons, firing, nadv, racy>>
+    /\ UNCHANGED <<cfg, conn, batchQ, pendB, seen, sent, valQ, loopQ, jobs, gUsed, vUsed, orphans, sendQ, local, outs, mons, firing, nadv, racy>>
 
 Unblock(w) ==
     /\ worker[w].st = "parked"
     /\ Rec([a |-> "unblock", m |-> worker[w].id])
     /\ worker' = [worker EXCEPT ![w] = Idle]
-    /\ UNCHANGED <<cfg, seen, sent, valQ, loopQ, jobs, gUsed, vUsed, orphans, sendQ, local, outs, mons, firing, nblk, nadv, racy>>
+    /\ UNCHANGED <<cfg, conn, batchQ, pendB, seen, sent, valQ, loopQ, jobs, gUsed, vUsed, orphans, sendQ, local, outs, mons, firing, nblk, nadv, racy>>
 
 Adv ==
     /\ nadv < MaxAdv
@@ -130,7 +136,9 @@ Stimulus ==
     /\ \/ \E p \in Fwd, id \in Ids : Send(p, id)
        \/ \E p \in Fwd, b \in Batches : SendBatch(p, b)
        \/ Rel
-       \/ \E c \in Calls, id \in LocalIds : Pub(c, id)
+       \/ \E c \in Calls, id \in LocalIds : Pub(c, id) \/ BAdd(c, id)
+       \/ BPub
+       \/ \E p \in Fwd : Down(p)
        \/ \E w \in Workers : Block(w) \/ Unblock(w)
        \/ Adv
 
@@ -139,7 +147,7 @@ GSpec == GInit /\ [][GNext]_gvars
 
 \* ---------------------------------------------------------------- emission
 Drained ==
-    /\ ~EagerEnabled /\ Running = {} /\ valQ = <<>>
+    /\ ~EagerEnabled /\ Running = {} /\ valQ = <<>> /\ batchQ = <<>>
     /\ \A w \in Workers : worker[w].st = "idle"
     /\ \A c \in Calls : local[c].st \in {"idle", "ret"}
 
